@@ -1517,6 +1517,27 @@ fn mutations(rng: &mut Rng, ver: u8, pw: u8, frame: &[u8], count: usize, out: &m
 /// hand-made witnesses for the quirks read in the source
 fn directed(out: &mut dyn Write) {
     writeln!(out, "T codec directed").unwrap();
+    // every property (once, twice, after a User Property) in every property section, will
+    // properties included: the parser's accept / reject decision and what it accepted
+    {
+        use crate::tables::{all_prop_ids, body, fixed_header, wire_prop, LOCS};
+        use mqtt_protocol_core::mqtt::packet::PropertyId;
+        for loc in LOCS {
+            for id in all_prop_ids() {
+                let one = wire_prop(id, 1);
+                let up = wire_prop(PropertyId::UserProperty, 2);
+                let variants: Vec<Vec<u8>> = vec![
+                    one.clone(),
+                    [one.clone(), wire_prop(id, 2)].concat(),
+                    [up.clone(), one.clone()].concat(),
+                    [one.clone(), up.clone(), one.clone()].concat(),
+                ];
+                for pbytes in variants {
+                    p_line(out, 5, 2, fixed_header(loc), &body(loc, 0, &pbytes));
+                }
+            }
+        }
+    }
     let cases: Vec<(u8, u8, u8, &str)> = vec![
         // non-minimal property length: CONNACK, CONNECT
         (5, 2, 0x20, "00008000"),
